@@ -1,6 +1,11 @@
 use crate::runner::{Check, Ctx, Fail, Report};
 use serde_json::Value;
 
+pub mod c01;
+pub mod c02;
+pub mod c03;
+pub mod c05;
+pub mod c07;
 pub mod c08;
 pub mod c09;
 pub mod c10;
@@ -17,6 +22,11 @@ pub struct Entry {
 }
 
 pub const ENTRIES: &[Entry] = &[
+    Entry { id: "C01", run: c01::run, replay: c01::replay },
+    Entry { id: "C02", run: c02::run, replay: c02::replay },
+    Entry { id: "C03", run: c03::run, replay: c03::replay },
+    Entry { id: "C05", run: c05::run, replay: c05::replay },
+    Entry { id: "C07", run: c07::run, replay: c07::replay },
     Entry { id: "C08", run: c08::run, replay: c08::replay },
     Entry { id: "C09", run: c09::run, replay: c09::replay },
     Entry { id: "C10", run: c10::run, replay: c10::replay },
